@@ -100,6 +100,10 @@ fn main() {
                     Some(c) => println!("{}", serde_json::to_string(&c).unwrap()),
                     None => std::process::exit(3),
                 },
+                "faults" => match rv::fuzz::fault_case(&data) {
+                    Some(c) => println!("{}", serde_json::to_string(&c).unwrap()),
+                    None => std::process::exit(3),
+                },
                 "twins:C10" | "twins:C11" | "twins:C16" | "twins:C17" => match rv::fuzz::twin_cases(&data) {
                     Some(t) => println!(
                         "{}",
